@@ -45,6 +45,8 @@ fn main() {
     let k = known.clone();
     ck.run(Section::pbt("protocol-cache", tier.pick(3000, 300_000), proto::protocache_strategy, move |c| proto::check_protocache(c, &k)).shards(8));
     let k = known.clone();
+    ck.run(Section::pbt("protocol-cache-key-pairs", tier.pick(3000, 300_000), proto::protopair_strategy, move |c| proto::check_protopair(c, &k)).shards(8));
+    let k = known.clone();
     ck.run(Section::pbt("ribbit-query", tier.pick(2000, 100_000), proto::query_strategy, move |c| proto::check_query(c, &k)).shards(12));
     let k = known.clone();
     ck.run(Section::pbt("cdn-client", tier.pick(3000, 150_000), proto::cdn_strategy, move |c| proto::check_cdn(c, &k)).shards(12));
@@ -52,6 +54,9 @@ fn main() {
     ck.run(Section::pbt("open-installation", tier.pick(3000, 300_000), storage::install_strategy, move |c| storage::check_install(c, &k)).shards(8));
     let k = known.clone();
     ck.run(Section::pbt("fixed-width-path-builders", tier.pick(3000, 300_000), storage::fixed_strategy, move |c| storage::check_fixed(c, &k)).shards(8));
+
+    let k = known.clone();
+    ck.run(Section::pbt("hardlink-container-ops", tier.pick(3000, 200_000), storage::hardlink_strategy, move |c| storage::check_hardlink(c, &k)).shards(8));
 
     let t = common::TIMEOUTS.load(Ordering::Relaxed);
     if t > 0 {
